@@ -108,6 +108,7 @@ type VC struct {
 
 	globalsRead map[*ssa.Global]bool
 	inlineDepth int
+	preOnly     bool // applyContract stops after the preconditions (go statements)
 	callPreHit  map[int]int
 	transferHit map[int]int
 	tokParams   map[int]string
@@ -569,7 +570,7 @@ func (vc *VC) havocAll(st *State) {
 	keep := map[string]string{}
 	defer func(e int) {}(st.epoch)
 	for k, v := range st.heap {
-		if k == tokKey || k == freshKey || strings.HasPrefix(k, "#fifo.") || k == "#held" || k == "#waited" {
+		if k == tokKey || k == freshKey || strings.HasPrefix(k, "#fifo.") || k == "#held" || k == "#waited" || k == "#fnid" {
 			keep[k] = v
 		}
 		if strings.HasPrefix(k, "#ghost.") {
@@ -592,7 +593,16 @@ func (vc *VC) havocAll(st *State) {
 	// owned ghosts never read so far keep their entry version
 	for name, g := range vc.prog.cs.Ghosts {
 		k := "#ghost." + name
-		if _, ok := keep[k]; !ok && g.Owned && vc.heapElem[k] != nil {
+		if _, ok := keep[k]; !ok && g.Owned {
+			if vc.heapElem[k] == nil {
+				// not mentioned yet in this function: register it so that a later mention reads the
+				// version that survived this havoc (only ghosts of the function's own package: the
+				// others cannot be named by its contracts)
+				if g.Pkg != vc.pkg.Path() {
+					continue
+				}
+				vc.heapKeySort(k, vc.parseType(g.Type, vc.pkg))
+			}
 			keep[k] = vc.heapGet(st, k, vc.heapElem[k])
 		}
 	}
